@@ -24,6 +24,7 @@ import (
 //	for i := 0; i < len(xs); i++ {   ->  for i := range xs {   (xs a local slice the body leaves alone)
 //	for i := range xs { v := xs[i]; ...  ->  for i, v := range xs { ...
 //	var x = E        -> x := E        (one name, one value, no declared type)
+//	switch { case A: X; case B: Y; default: Z }  ->  if A { X } else if B { Y } else { Z }
 //
 // Only operands are exchanged and operator tokens changed; every node keeps
 // its identity, so types.Info stays valid. Both rewrites preserve meaning for
@@ -60,6 +61,7 @@ func normalize(pk *packages.Package) {
 	// negation normal form and guard-clause form (before everything else, so that the later
 	// passes see the canonical conditions)
 	for _, f := range pk.Syntax {
+		switchForm(f)
 		guardForm(info, f)
 	}
 	for _, f := range pk.Syntax {
@@ -591,6 +593,78 @@ func guardForm(info *types.Info, f *ast.File) {
 		case *ast.RangeStmt:
 			x.Body.List = fix(x.Body.List)
 		}
+		return true
+	})
+}
+
+// switchForm rewrites a tagless switch without init, fallthrough or break into
+// the if / else-if chain it abbreviates (conditions are tried top to bottom, the
+// default clause last wherever it is written). Conditions and bodies are the
+// original nodes, so types.Info stays valid.
+func switchForm(f *ast.File) {
+	astutil.Apply(f, nil, func(c *astutil.Cursor) bool {
+		sw, ok := c.Node().(*ast.SwitchStmt)
+		if !ok || sw.Tag != nil || sw.Init != nil || len(sw.Body.List) == 0 {
+			return true
+		}
+		if _, labelled := c.Parent().(*ast.LabeledStmt); labelled {
+			return true
+		}
+		plain := true
+		var deflt *ast.CaseClause
+		var clauses []*ast.CaseClause
+		for _, cc := range sw.Body.List {
+			cl := cc.(*ast.CaseClause)
+			if cl.List == nil {
+				deflt = cl
+			} else {
+				clauses = append(clauses, cl)
+			}
+			for _, st := range cl.Body {
+				ast.Inspect(st, func(n ast.Node) bool {
+					switch y := n.(type) {
+					case *ast.BranchStmt:
+						if y.Tok == token.FALLTHROUGH || (y.Tok == token.BREAK && y.Label == nil) {
+							plain = false
+						}
+					case *ast.ForStmt, *ast.RangeStmt, *ast.SwitchStmt, *ast.TypeSwitchStmt, *ast.SelectStmt, *ast.FuncLit:
+						return false // an unlabelled break in there belongs to that statement
+					}
+					return plain
+				})
+			}
+		}
+		if !plain || len(clauses) == 0 {
+			return true
+		}
+		cond := func(cl *ast.CaseClause) ast.Expr {
+			e := cl.List[0]
+			for _, o := range cl.List[1:] {
+				e = &ast.BinaryExpr{X: e, OpPos: o.Pos(), Op: token.LOR, Y: o}
+			}
+			return e
+		}
+		if len(clauses) > 0 {
+			for _, cl := range clauses {
+				if len(cl.List) > 1 {
+					return true // `case A, B:` would need a synthetic || node without type information
+				}
+			}
+		}
+		var chain, last *ast.IfStmt
+		for _, cl := range clauses {
+			is := &ast.IfStmt{If: cl.Case, Cond: cond(cl), Body: &ast.BlockStmt{Lbrace: cl.Colon, List: cl.Body, Rbrace: cl.End()}}
+			if chain == nil {
+				chain = is
+			} else {
+				last.Else = is
+			}
+			last = is
+		}
+		if deflt != nil {
+			last.Else = &ast.BlockStmt{Lbrace: deflt.Colon, List: deflt.Body, Rbrace: deflt.End()}
+		}
+		c.Replace(chain)
 		return true
 	})
 }
